@@ -236,7 +236,7 @@ def standard_parsing_functions(Block: Any, Tx: Any) -> list[Any]:
         (
             "O",
             (
-                lambda f: True if f.read(1) else False,
+                lambda f: f.read(1) not in (b"", b"\0"),
                 lambda f, v: f.write(b"" if v is None else struct.pack("B", v)),
             ),
         ),
